@@ -169,6 +169,7 @@ func (i *insertOnUpdateExecutor) beforeImage(ctx context.Context) (*types.Record
 	if err != nil {
 		return nil, err
 	}
+	nameColumnsOfTable(i.parserCtx.InsertStmt, metaData)
 	selectSQL, selectArgs, err := i.buildBeforeImageSQL(i.parserCtx.InsertStmt, *metaData, i.execContext.NamedValues)
 	if err != nil {
 		return nil, err
